@@ -2264,3 +2264,124 @@ Definition lx_rel (pid : N) : event := ESend 1 (KPubrel pid 0 []).
 (* two QoS 2 publishes open: the quota is used up *)
 Definition lx_full : st := fst (run lx_s0 [lx_pub false 2 1 lx_T []; lx_pub false 2 2 lx_T []]).
 Definition lx_conn (s : st) : conn := opt_or (nget 1 (b_conns s)) (fresh_conn [] 0).
+
+(* a boolean form of the quota relation, for the examples *)
+Fixpoint nodupb (l : list N) : bool := match l with [] => true | x :: r => negb (memN x r) && nodupb r end.
+
+Lemma nodupb_NoDup l : nodupb l = true -> NoDup l.
+Proof.
+  induction l as [|x r IH]; cbn [nodupb]; intros H; [constructor|].
+  apply andb_true_iff in H as [H1 H2]. apply negb_true_iff in H1. constructor; [now apply memN_notIn|auto].
+Qed.
+
+Definition qrel_b (ex : bool) (s : st) (k : conn) : bool :=
+  nodupb (open_ids s (k_cid k)) && (k_quota k <=? k_recv_max k) &&
+  (k_recv_max k <=? k_quota k + N.of_nat (length (open_ids s (k_cid k)))) &&
+  (negb ex || (k_quota k + N.of_nat (length (open_ids s (k_cid k))) =? k_recv_max k)).
+
+Lemma qrel_b_ok ex s k : qrel_b ex s k = true -> Qrel ex s k.
+Proof.
+  unfold qrel_b, Qrel. intros H. apply andb_true_iff in H as [H H4]. apply andb_true_iff in H as [H H3].
+  apply andb_true_iff in H as [H1 H2]. split; [now apply nodupb_NoDup|]. split; [lia|]. split; [lia|].
+  intros ->. cbn [negb Datatypes.orb] in H4. lia.
+Qed.
+
+Definition qinv_b (ex : bool) (s : st) (c : N) : bool :=
+  match nget c (b_conns s) with Some k => qrel_b ex s k | None => true end.
+
+Lemma qinv_b_ok ex s c : qinv_b ex s c = true -> QInv ex s c.
+Proof. unfold qinv_b. intros H k Hk _ _. rewrite Hk in H. now apply qrel_b_ok. Qed.
+
+(* ================================================================== *)
+(* 15. along a run: a client within the Receive Maximum never sees 0x93 *)
+(* ================================================================== *)
+
+Lemma step_disc_in_event s e c' code pr :
+  In (OSend c' (KDisconnect code pr)) (snd (step s e)) -> In (OSend c' (KDisconnect code pr)) (snd (step_event s e)).
+Proof.
+  intros Hin. destruct (step_poll s e) as (o2 & Eo & _ & P). rewrite Eo in Hin.
+  apply in_app_or in Hin as [Hin|Hin]; [exact Hin|].
+  apply pollout_benign in P. rewrite Forall_forall in P. destruct (P _ Hin).
+Qed.
+
+Lemma send_unconnected_no_disc c k p s c' code pr :
+  ~ In (OSend c' (KDisconnect code pr)) (snd (send_unconnected c k p s)).
+Proof.
+  assert (G : forall c0 s0, ~ In (OSend c' (KDisconnect code pr)) (snd (conn_gone c0 s0))).
+  { intros c0 s0 Hin. destruct (conn_gone_gen c0 s0) as (_ & _ & _ & _ & _ & HF). rewrite Forall_forall in HF.
+    destruct (HF _ Hin) as [E|E]; [discriminate|destruct E]. }
+  assert (Nil : ~ In (OSend c' (KDisconnect code pr)) []) by (intros []).
+  unfold send_unconnected. destruct (k_phase k); cbn [snd]; try exact Nil.
+  - intros [H0|[]]. discriminate.
+  - destruct p; try exact Nil. destruct ((k_v k =? 5) && (0 <? qos)); [|exact Nil].
+    destruct (k_quota k =? 0); [apply G|exact Nil].
+  - destruct p; try exact Nil. destruct ((k_v k =? 5) && (0 <? qos)); [apply G|exact Nil].
+Qed.
+
+Lemma packet_size_big_event s c k p n :
+  nget c (b_conns s) = Some k -> k_phase k = PhConnected -> too_big k n s = true ->
+  step_event s (ESendSz c p n) = torn c (sz_code k p) (charged c k p (sz_charged k p) s) /\
+  exists k1, nget c (b_conns (charged c k p (sz_charged k p) s)) = Some k1 /\ attached (k_phase k1) = true.
+Proof.
+  intros Hk Hp Hb. pose proof (too_big_v5 _ _ _ Hb) as Hv. apply N.eqb_eq in Hv.
+  rewrite (step_event_send_sz' s c k p n Hk Hp), (handle_packet_sz_big_eq c k p n s Hk Hb).
+  unfold sz_code, sz_charged. destruct (read_err k p) as [cd|]; cbn [finish charged].
+  - split; [now apply (fail_conn_v5 c k)|]. exists k. split; [exact Hk|]. now rewrite Hp.
+  - cbn [app]. rewrite (fail_conn_v5 c (charge k p) 149 false); [|lproj; apply ng_nset_same|now rewrite charge_phase|now rewrite charge_v].
+    split; [now destruct (torn c 149 _)|]. eexists. split; [lproj; apply ng_nset_same|]. now rewrite charge_phase, Hp.
+Qed.
+
+Definition ev_within (s : st) (c : N) (e : event) : bool :=
+  match ev_pkt e, nget c (b_conns s) with Some p, Some k => within_recv_max s k p | _, _ => true end.
+
+Lemma step_never_0x93 s c e c' pr :
+  on_socket c e = true -> QInv false s c -> ev_within s c e = true ->
+  ~ In (OSend c' (KDisconnect 147 pr)) (snd (step s e)).
+Proof.
+  intros Hon HQ Hw Hin.
+  assert (Send : forall p, ev_pkt e = Some p -> step_event s e = step_event s (ESend c p) -> False).
+  { intros p Hp E. apply step_disc_in_event in Hin. rewrite E in Hin.
+    unfold ev_within in Hw. rewrite Hp in Hw.
+    destruct (nget c (b_conns s)) as [k|] eqn:Hk; [|cbn [step_event] in Hin; rewrite Hk in Hin; destruct Hin].
+    assert (Hph : k_phase k = PhConnected \/ k_phase k <> PhConnected) by (destruct (k_phase k); auto; right; discriminate).
+    destruct Hph as [Hph|Hph].
+    - assert (Hin2 : In (OSend c' (KDisconnect 147 pr)) (snd (step s (ESend c p)))).
+      { destruct (step_poll s (ESend c p)) as (o2 & Eo & _). rewrite Eo. apply in_or_app. now left. }
+      revert Hin2. apply (within_recv_max_never_0x93 s c k p); auto.
+    - cbn [step_event] in Hin. rewrite Hk in Hin.
+      destruct (k_phase k) eqn:E2; try congruence; now apply send_unconnected_no_disc in Hin. }
+  destruct e; try discriminate; cbn [on_socket] in Hon.
+  - apply N.eqb_eq in Hon. subst c0. now apply (Send p).
+  - apply N.eqb_eq in Hon. subst c0.
+    destruct (step_event_sz s c p n) as [E|(k & Hk & Hp & Hb & _)]; [now apply (Send p)|].
+    destruct (packet_size_big_event s c k p n Hk Hp Hb) as (E & k1 & Hk1 & Ha).
+    destruct (torn_step s (ESendSz c p n) c _ _ k1 E Hk1 Ha) as (T1 & T2 & _).
+    rewrite Forall_forall in T2. destruct (T2 _ Hin) as [Ht|Hb2]; [|destruct Hb2].
+    assert (Hf : In (OSend c' (KDisconnect 147 pr)) (filter (to_sock c) (snd (step s (ESendSz c p n)))))
+      by (apply filter_In; auto).
+    rewrite T1 in Hf. destruct Hf as [Hf|[Hf|[]]]; [|discriminate]. injection Hf as _ Hc _.
+    unfold sz_code in Hc. destruct (read_err k p) as [cd|] eqn:Hr; [subst cd|discriminate].
+    apply read_err_147 in Hr as (dup & qos & retain & topic & payload & pid & props & -> & Hv & Hq & H0).
+    unfold ev_within in Hw. cbn [ev_pkt] in Hw. rewrite Hk in Hw. cbn [within_recv_max] in Hw.
+    destruct (HQ k Hk Hp Hv) as (_ & _ & Q3 & _). lia.
+  - apply step_disc_in_event in Hin. destruct Hin.
+  - apply step_disc_in_event in Hin. destruct Hin.
+Qed.
+
+Lemma run_snd_cons s e r : snd (run s (e :: r)) = snd (step s e) :: snd (run (fst (step s e)) r).
+Proof. cbn [run]. destruct (step s e) as [s' o]. cbn [fst snd]. destruct (run s' r). reflexivity. Qed.
+
+(* for histories on one socket in which every QoS>0 PUBLISH arrives while fewer than Receive Maximum QoS 2 publishes
+   are open: no step of the run answers with 0x93 *)
+Theorem never_0x93_run c es : forall s,
+  QInv false s c -> run_ok (fun s e => quota_side false c s e && ev_within s c e) s es = true ->
+  forall o c' pr, In o (snd (run s es)) -> ~ In (OSend c' (KDisconnect 147 pr)) o.
+Proof.
+  induction es as [|e r IH]; intros s HQ Hok o c' pr Ho; [destruct Ho|].
+  cbn [run_ok] in Hok. apply andb_true_iff in Hok as [H1 H2]. apply andb_true_iff in H1 as [H1 Hw].
+  pose proof H1 as Hside. unfold quota_side in H1.
+  apply andb_true_iff in H1 as [H1 _]. apply andb_true_iff in H1 as [Hon Hwf].
+  rewrite run_snd_cons in Ho. destruct Ho as [<-|Ho].
+  - now apply (step_never_0x93 s c e).
+  - apply (IH (fst (step s e))); auto. apply QInv_step; auto. discriminate.
+Qed.
